@@ -242,7 +242,7 @@ func init() {
 		EvalKeys: []string{"C08"},
 		Build: func(env *core.Env, i int, r *rand.Rand) simCase {
 			o := baseOptions(env, i, r)
-			o.Kubelet = sim.KubeletOptions{FailRate: 55, NeverSched: 15, LateDie: 5, Flap: 6, Vanish: 8, ExitOnDelete: 5}
+			o.Kubelet = sim.KubeletOptions{FailRate: 55, NeverSched: 15, LateDie: 5, Flap: 6, Vanish: 8, ExitOnDelete: 3, SlowStart: 4}
 			o.JobCfg = jobCfg(3600, 900, 900)
 			return simCase{Opt: o, Prof: sim.Profile{MaxJobConfigs: 1, MinJobs: 1, MaxJobs: 4, OwnedBias: 30, Policies: []execution.ConcurrencyPolicy{execution.ConcurrencyPolicyAllow}, Parallel: 60,
 				MaxAttempts: 5, MaxRetryDelay: 20, KillPct: 15, DeletePct: 10, StartAfterPct: 5, PendingTimeout: []int64{-1, 0, 10, 30}, TTL: []int64{30, 200}}}
@@ -256,7 +256,7 @@ func init() {
 		EvalKeys: []string{"C10", "C10_fix"},
 		Build: func(env *core.Env, i int, r *rand.Rand) simCase {
 			o := baseOptions(env, i, r)
-			o.Kubelet = sim.KubeletOptions{FailRate: 30 + r.Intn(50), NeverSched: 12, LateDie: 6, Flap: 8, Vanish: 8, ExitOnDelete: 4}
+			o.Kubelet = sim.KubeletOptions{FailRate: 30 + r.Intn(50), NeverSched: 12, LateDie: 6, Flap: 8, Vanish: 8, ExitOnDelete: 3, SlowStart: 4}
 			return simCase{Opt: o, Prof: sim.Profile{MaxJobConfigs: 1, MinJobs: 1, MaxJobs: 4, OwnedBias: 25, Policies: []execution.ConcurrencyPolicy{execution.ConcurrencyPolicyAllow}, Parallel: 70,
 				MaxAttempts: 4, MaxRetryDelay: 8, KillPct: 8, DeletePct: 5, PendingTimeout: []int64{-1, 10, 25}, TTL: []int64{60, 300}}}
 		},
@@ -270,7 +270,7 @@ func init() {
 		EvalKeys: []string{"C11", "C11_coherence"},
 		Build: func(env *core.Env, i int, r *rand.Rand) simCase {
 			o := baseOptions(env, i, r)
-			o.Kubelet = sim.KubeletOptions{FailRate: 45, NeverSched: 15, LateDie: 5, NeverDie: 10, Flap: 3, Vanish: 6, ExitOnDelete: 3}
+			o.Kubelet = sim.KubeletOptions{FailRate: 45, NeverSched: 15, LateDie: 5, NeverDie: 10, Flap: 3, Vanish: 6, ExitOnDelete: 3, SlowStart: 6}
 			o.JobCfg = jobCfg(3600, 900, 40)
 			if i%4 == 2 {
 				o.Faults = &sim.RandomFaults{Pct: 10, Kinds: []sim.FaultKind{sim.F500Before, sim.F409Before, sim.FCrashBefore}, R: rand.New(rand.NewSource(o.Seed ^ 0xfc)), Until: 300, Crashes: 1}
@@ -290,7 +290,7 @@ func init() {
 		EvalKeys: []string{"C12"},
 		Build: func(env *core.Env, i int, r *rand.Rand) simCase {
 			o := baseOptions(env, i, r)
-			o.Kubelet = sim.KubeletOptions{FailRate: 35, NeverSched: 4, LateDie: 4, NeverDie: 4, Flap: 8, ExitOnDelete: 4, MaxRun: 40}
+			o.Kubelet = sim.KubeletOptions{FailRate: 35, NeverSched: 4, LateDie: 4, NeverDie: 4, Flap: 8, ExitOnDelete: 3, MaxRun: 40, SlowStart: 4}
 			o.JobCfg = jobCfg(3600, []int64{0, 15, 900}[r.Intn(3)], []int64{0, 20, 60}[r.Intn(3)])
 			return simCase{Opt: o, Prof: sim.Profile{MaxJobConfigs: 1, MinJobs: 1, MaxJobs: 4, OwnedBias: 30, Policies: []execution.ConcurrencyPolicy{execution.ConcurrencyPolicyAllow}, Parallel: 45,
 				MaxAttempts: 3, MaxRetryDelay: 15, KillPct: 65, FutureKill: 50, ClearKillPct: 35, DeletePct: 8, StartAfterPct: 15, PendingTimeout: []int64{-1, -1, 0, 6, 20}, ForbidForce: 30, TTL: []int64{600}}}
